@@ -1,2 +1,5 @@
 import RdsProofs.Frame
 import RdsProofs.Inv
+import RdsProofs.WFBase
+import RdsProofs.WFProofs
+import RdsProofs.C03Proofs
